@@ -52,8 +52,29 @@ def gen_history(r, proj: dict, n_ops: int) -> list:
             if items and r.random() < 0.6:
                 items.pop(r.randrange(len(items)))
             items.append(["U", 0, tag + str(r.randrange(1000))])
-        proj["contents"].append([path, items])
+        proj["contents"].append([path, items, curk[0]])
         return len(proj["contents"]) - 1
+
+    curk = [0]
+
+    def config_change():
+        """a new configuration for the same root, then (configuration is read at construction) a new Linter in the same
+        process; for the model every file gets a new version: a content id stands for (text, configuration)"""
+        proj.setdefault("configs", [proj["config"]])
+        proj["configs"].append(oc.config_variant(r, proj["configs"][curk[0]]))
+        curk[0] = len(proj["configs"]) - 1
+        ops = []
+        cfgp = paths.index(oc.CONFIG_NAME)
+        proj["contents"].append([oc.CONFIG_NAME, ["CONFIG", curk[0]], curk[0]])
+        fs[cfgp] = len(proj["contents"]) - 1
+        ops.append(["Edit", cfgp, fs[cfgp]])
+        for p in sorted(fs):
+            if p == cfgp:
+                continue
+            proj["contents"].append([paths[p], proj["contents"][fs[p]][1], curk[0]])
+            fs[p] = len(proj["contents"]) - 1
+            ops.append(["Edit", p, fs[p]])
+        return ops + [["NewLinter"]]
 
     def pick_dir():
         live = [di for di, d in enumerate(proj["dirs"]) if any(oc.in_dir(d, paths[p]) for p in fs)]
@@ -68,15 +89,17 @@ def gen_history(r, proj: dict, n_ops: int) -> list:
             ops = [["Delete", ign]]
             del fs[ign]
         else:
-            proj["contents"].append([oc.IGNORE_NAME, ["IGNORE", new]])
+            proj["contents"].append([oc.IGNORE_NAME, ["IGNORE", new], curk[0]])
             c = len(proj["contents"]) - 1
             ops = [["Edit" if ign in fs else "Add", ign, c]]
             fs[ign] = c
         return ops + [["NewLinter"]]
 
     templates = r.random()
-    if templates < 0.10:                                   # lint, change the ignore file, new Linter, lint again
+    if templates < 0.07:                                   # lint, change the ignore file, new Linter, lint again
         hist += [[r.choice(["ApiDir", "LintDir"]), 0]] + ignore_edit() + [["ApiDir", 0]]
+    elif templates < 0.14:                                 # lint, change the configuration, new Linter, lint again
+        hist += [[r.choice(["ApiDir", "LintDir"]), 0]] + config_change() + [["ApiDir", 0]]
     elif templates < 0.2 and len(code_files()) >= 2:       # delete between two directory runs
         victim = r.choice(code_files())
         hist += [["ApiDir", 0], ["Delete", victim], ["ApiDir", 0]]
@@ -84,6 +107,7 @@ def gen_history(r, proj: dict, n_ops: int) -> list:
     elif templates < 0.3 and len(code_files()) >= 2:      # single-file call, then a batch elsewhere
         a, b = r.sample(code_files(), 2)
         hist += [[r.choice(["LintFile", "ApiFile"]), a], ["LintFiles", [b]]]
+    n_ops += sum(1 for o in hist if o[0] == "Edit")      # the re-versioning edits of a configuration change do not count
     while len(hist) < n_ops:
         x = r.random()
         cf = code_files()
@@ -112,7 +136,15 @@ def gen_history(r, proj: dict, n_ops: int) -> list:
             hist.append(["Delete", p])
             del fs[p]
         elif x < 0.955:
-            hist += ignore_edit() if r.random() < 0.7 else [["NewLinter"]]
+            y = r.random()
+            if y < 0.45:
+                hist += ignore_edit()
+            elif y < 0.85:
+                ce = config_change()
+                n_ops += len(ce) - 2
+                hist += ce
+            else:
+                hist.append(["NewLinter"])
         else:
             gone = [i for i in range(len(paths)) if i not in fs and i not in special]
             if gone:
@@ -197,15 +229,30 @@ def _call(lin, root: Path, proj: dict, op: list):
     raise ValueError(k)
 
 
+_iso_counter = [0]
+
+
 def _fresh_call(root: Path, proj: dict, op: list) -> list:
-    """the call on a Linter built as in a fresh process, released before returning; the process state the long-lived
-    object under test lives in is put back afterwards"""
-    with oc.ProcessStateGuard():
-        fl = oc.fresh_linter(root)
-        try:
-            return [oc.canon_violation(v, root) for v in _call(fl, root, proj, op)]
-        finally:
-            del fl
+    """the call on a Linter built as in a fresh process, released before returning.  'Fresh process' is approximated in
+    this process by (i) dropping the ignore-parser singleton (put back afterwards for the object under test) and (ii) running
+    on a COPY of the project under a directory never used before, so that no process-wide table keyed by project root or by
+    path (class attributes, module dictionaries) can carry anything over from earlier objects"""
+    import shutil
+    _iso_counter[0] += 1
+    iso = root.parent / f"iso{_iso_counter[0]}" / "proj"
+    shutil.copytree(root, iso, symlinks=True)
+    cwd = os.getcwd()
+    try:
+        with oc.ProcessStateGuard():
+            os.chdir(iso)
+            fl = oc.fresh_linter(iso)
+            try:
+                return [oc.canon_violation(v, iso) for v in _call(fl, iso, proj, op)]
+            finally:
+                del fl
+    finally:
+        os.chdir(cwd)
+        shutil.rmtree(iso.parent, ignore_errors=True)
 
 
 def _perfile_call(root: Path, proj: dict, p: int) -> list:
@@ -308,15 +355,24 @@ def measure_queries(job) -> list:
     install_failure_tap()
     out = []
     mproj = json.loads(json.dumps(proj))
-    mproj["config"]["dry"]["storage_mode"] = "memory"   # the report does not depend on where SQLite keeps its rows
+    roots: dict = {}
     with scratch_dir("tv-c08-m-") as d, oc.AnalyzeMemo():
-        root = d / "proj"
-        root.mkdir()
-        oc.write_project(root, mproj, {k: v for k, v in mproj["fs0"].items()
-                                       if mproj["paths"][int(k)] in (oc.CONFIG_NAME, oc.IGNORE_NAME)})
         for kind, npend, ev in queries:
+            # all file versions of an evidence list belong to one configuration version (a new configuration means a new
+            # Linter, whose rule objects start empty): measure under that configuration, in a root of its own
+            k = oc.content_cfg(mproj, ev[0][1]) if ev else 0
+            if k not in roots:
+                cfg = json.loads(json.dumps(oc.config_of(mproj, k)))
+                cfg.setdefault("dry", {"enabled": False})["storage_mode"] = "memory"   # the report does not depend on where SQLite keeps its rows
+                kp = json.loads(json.dumps(mproj))
+                kp["config"] = cfg      # what the root's .thailint.yaml says; kp["configs"] keeps the texts of all versions
+                root = d / f"m{k}" / "proj"
+                root.mkdir(parents=True)
+                oc.write_project(root, kp, {kk: v for kk, v in kp["fs0"].items() if kp["paths"][int(kk)] in (oc.CONFIG_NAME, oc.IGNORE_NAME)})
+                roots[k] = (root, kp)
+            root, kp = roots[k]
             try:
-                out.append(oc.measure_report(root, mproj, kind, ev, npend))
+                out.append(oc.measure_report(root, kp, kind, ev, npend))
             except Exception as e:  # noqa: BLE001
                 out.append({"error": f"{type(e).__name__}: {e}"})
     drain_failures()
@@ -519,7 +575,7 @@ def run(tier: str, seed: int, replay: str | None = None) -> int:
         "independence of PYTHONHASHSEED is observed on CLI runs, not proved (the model has no hash values)",
         "os.walk order is an oracle: each directory call carries the listing observed at that moment",
         "suppression comments: generated Python files carry `# dry: ignore-block` / `# dry: ignore-next` comments, whose per-run lifetime in DRYRule is modelled (rows that outlive a run lose their ranges: measured with the comments neutralised); `thailint:` directives and the caches behind them (stringly-typed IgnoreChecker._file_content_cache, has_file_ignore reading the disk) are outside the model and absent from generated files",
-        "configuration is read when an object is built: histories change .thailintignore only right before building a new Linter (hist_synced, a hypothesis of the theorems); the config dict itself never changes; a 'fresh object' is one built in a fresh process (the ignore-parser singleton is dropped for baseline and measurement objects and put back for the object under test); the process works in its project root (with another working directory the rule constructors re-key the singleton and the stale-parser defect is masked)",
+        "configuration is read when an object is built: histories change .thailintignore only right before building a new Linter (hist_synced, a hypothesis of the theorems); histories also change .thailint.yaml (other file-placement rules or none, other thresholds / language blocks) right before building a new Linter in the same process: to the model this is a re-versioning of every file (a content id stands for (text, configuration read at construction)) followed by NewLinter, so rule behaviour stays a function of (path, version); a 'fresh object' is one built in a fresh process, approximated in-process by dropping the ignore-parser singleton (put back for the object under test) and by running baseline and measurement objects on a copy of the project under a directory never used before (so that tables keyed by project root or path cannot carry anything over); the process works in its project root (with another working directory the rule constructors re-key the singleton and the stale-parser defect is masked)",
         "cross-file reports of files under directories that histories add to / remove from .thailintignore are kept empty by construction (the reports filter by the patterns current at finalize time, which the measured report tables do not carry)",
         "single-shot report measurements memoise the DRY FileAnalyzer.analyze function per (path, content) inside the measuring worker process (harness-side wrapper, nothing under /repo is touched) and use storage_mode memory",
     ]
